@@ -542,6 +542,13 @@ pub fn gen_side_program(r: &mut Rng, sig: &Signature, privates: &[(String, usize
         }
         rules.push(format!(":- {}.", body.join(", ")));
     }
+    // a constraint whose body is a single comparison on an integer placeholder (true exactly at
+    // or beyond a value the sampled placeholder values reach)
+    if let Some((n, _)) = sig.placeholders.iter().find(|(_, s)| s == "integer") {
+        if r.chance(1, 6) {
+            rules.push(format!(":- {n} {} {}.", [">=", "<=", ">", "<", "!=", "="][r.upto(6)], r.range(0, 2)));
+        }
+    }
     if rules.is_empty() {
         rules.push(":- 1 = 2.".into());
     }
@@ -632,7 +639,12 @@ pub fn gen_user_guide(r: &mut Rng, sig: &Signature, with_assumptions: bool) -> S
                 }
                 0 if sig.placeholders.iter().any(|(_, s)| s == "integer") => {
                     let (n, _) = sig.placeholders.iter().find(|(_, s)| s == "integer").unwrap();
-                    lines.push(format!("assumption: {} {} {}.", n, [">", ">=", "!="][r.upto(3)], r.range(0, 2)));
+                    if r.chance(1, 3) {
+                        // the placeholder below a unary minus only
+                        lines.push(format!("assumption: -{}$i {} {}.", n, ["<", "<=", "!="][r.upto(3)], r.range(0, 2)));
+                    } else {
+                        lines.push(format!("assumption: {} {} {}.", n, [">", ">=", "!="][r.upto(3)], r.range(0, 2)));
+                    }
                 }
                 1 if sig.inputs.iter().any(|(_, a)| *a == 1) => {
                     let (p, _) = sig.inputs.iter().find(|(_, a)| *a == 1).unwrap();
